@@ -99,13 +99,13 @@ fn gen_flags(s: &mut dyn Src) -> Vec<bool> {
     (0..=d).map(|_| s.bool()).collect()
 }
 
-/// interface + one of its own fields + one declarer; None if the schema has no such triple
-fn pick_impl(s: &mut dyn Src, sch: &Sch) -> Option<(String, String, String)> {
+/// one of an interface's own fields + one type that declares the interface; None if the schema has no such pair
+fn pick_impl(s: &mut dyn Src, sch: &Sch) -> Option<(String, String)> {
     let ifs: Vec<String> = names_of(sch, Kind::Interface).into_iter().filter(|i| !own_fields(sch, i).is_empty() && !declarers(sch, i).is_empty()).collect();
     let i = pick_name(s, &ifs)?;
     let f = pick_name(s, &own_fields(sch, &i))?;
     let d = pick_name(s, &declarers(sch, &i))?;
-    Some((i, f, d))
+    Some((f, d))
 }
 
 /// make sure the schema has `child implements parent` between interfaces; returns (child, parent)
@@ -217,7 +217,7 @@ fn mutate(s: &mut dyn Src, sch: &mut Sch, allow: &Allow) -> Option<String> {
         }
         // ---- a type lacks a field of an interface it declares
         2 => {
-            let (_i, f, d) = pick_impl(s, sch)?;
+            let (f, d) = pick_impl(s, sch)?;
             let is_if = sch.types[&d].kind == Kind::Interface;
             sch.types.get_mut(&d).unwrap().fields.retain(|x| x.name != f);
             Some(format!("interface-field-missing-on-{}", if is_if { "interface" } else { "object" }))
@@ -246,7 +246,7 @@ fn mutate(s: &mut dyn Src, sch: &mut Sch, allow: &Allow) -> Option<String> {
         }
         // ---- implementing field type: both variance directions
         4 => {
-            let (i, f, d) = pick_impl(s, sch)?;
+            let (f, d) = pick_impl(s, sch)?;
             // wrappers: the interface side, and the implementation with at most one non-null flag toggled or a list level
             // added / removed
             let fi = gen_flags(s);
@@ -329,12 +329,11 @@ fn mutate(s: &mut dyn Src, sch: &mut Sch, allow: &Allow) -> Option<String> {
                     }
                 }
             }
-            let _ = i;
             Some(format!("field-type/{}/{}", base_label, wrap_label))
         }
         // ---- arguments of an implementing field
         5 => {
-            let (_i, f, d) = pick_impl(s, sch)?;
+            let (f, d) = pick_impl(s, sch)?;
             // a fresh argument list on the interface field and on everything that carries the field
             let ins = input_bases(sch);
             let n_args = 1 + s.choose(2);
